@@ -106,7 +106,9 @@ pub fn family(tier: Tier) -> Vec<TrainCfg> {
     let seeds: Vec<(&str, Vec<(&str, &str)>)> = vec![
         ("plain", vec![("a", "N,x"), ("b", "V,y"), ("ab", "N,z"), ("c", "P,x"), ("bc", "V,x")]),
         ("quoted", vec![("a,b", "N,\"p,q\""), ("a", "N,x"), ("a", "V,x"), ("あ", "N,x"), ("b", "\"p,q\",y"), ("c", "P,x"),
-            ("aaaaaaaaaabbbbbbbbbbccccccccccaaaa,b", "N,long-late-comma"), ("bbbbbbbbbbccccccccccaaaaaaaaaabbbbbbbbbbc\"c", "V,\"long,late quote in a feature cell that is itself long enough\"")]),
+            ("aaaaaaaaaabbbbbbbbbbccccccccccaaaa,b", "N,long-late-comma"),
+            ("aaaaaaaaaabbbbbbbbbbccccccccccaaaaaaaaaabbbbbbbbbbccccccccccaaaa,1", "N,late-comma-at-64"),
+            ("ccccccccccccccccccccccccccccccccccccccccccccccccccccccccccccccccccccccccccccccccccccccccccccccccccccccccccccccccccccccccccccccccc\"q", "P,late-quote-at-129"), ("bbbbbbbbbbccccccccccaaaaaaaaaabbbbbbbbbbc\"c", "V,\"long,late quote in a feature cell that is itself long enough\"")]),
         ("short", vec![("a", "N"), ("b", "V"), ("ab", "N,x,extra"), ("c", "*")]),
     ];
     let unks: Vec<(&str, Vec<(&str, &str)>)> = vec![
@@ -167,6 +169,15 @@ pub fn family(tier: Tier) -> Vec<TrainCfg> {
                 }
             }
         }
+    }
+    // one feature.def with nine bigram templates (more than one SIMD block in the raw connector)
+    let nine: Vec<(String, String)> = (0..9).map(|i| (format!("T{i}:%L[{}]", i % 2), format!("T{i}:%R[{}]", (i + 1) % 2))).collect();
+    let n0 = out.len();
+    for i in (0..n0).step_by(n0 / 24 + 1) {
+        let mut c = out[i].clone();
+        c.bigram_templates = nine.clone();
+        c.name.push_str("/nine-bigram-templates");
+        out.push(c);
     }
     out
 }
@@ -707,15 +718,15 @@ pub fn check_c18_dict(cfg: &TrainCfg, m: &mut Model, st: &mut Stats) -> bool {
 }
 
 /// Builds (right, left, table) connection costs of a dictionary compiled from text files.
-fn conn_table(d: &vibrato::Dictionary) -> ((usize, usize), Vec<i32>) {
+fn conn_table(d: &vibrato::Dictionary) -> Result<((usize, usize), Vec<i32>), String> {
     let dims = d.verif_conn_dims();
     let mut t = vec![];
     for r in 0..dims.0 {
         for l in 0..dims.1 {
-            t.push(d.verif_conn_cost(r as u16, l as u16));
+            t.push(guard(|| d.verif_conn_cost(r as u16, l as u16))?);
         }
     }
-    (dims, t)
+    Ok((dims, t))
 }
 
 /// C16 oracle on one model state.
@@ -760,7 +771,17 @@ pub fn check_c16(cfg: &TrainCfg, m: &mut Model, kf: &[KnownFinding], st: &mut St
             return false;
         }
     };
-    let (mdims, mt) = conn_table(&md);
+    let Ok((mdims, mt)) = conn_table(&md) else {
+        st.violation(Finding {
+            class: "matrix-cost-panics".into(),
+            what: format!("reading the matrix connector panicked [{}]", cfg.name),
+            replay: files(json!({})),
+        });
+        return false;
+    };
+    // K4 at the trainer: when all merged weights nearly cancel, the common scale factor
+    // 32767/max|w| blows individual bigram.cost entries up (to i32 saturation)
+    let huge_cost = bg.cost.lines().any(|l| l.rsplit('\t').next().and_then(|c| c.parse::<i64>().ok()).map_or(false, |c| c.abs() > (1 << 24)));
     for dual in [false, true] {
         let built = guard(|| {
             SystemDictionaryBuilder::from_readers_with_bigram_info(g.lex.as_bytes(), bg.right.as_bytes(), bg.left.as_bytes(), bg.cost.as_bytes(), cfg.chardef.as_bytes(), g.unk.as_bytes(), dual)
@@ -776,7 +797,22 @@ pub fn check_c16(cfg: &TrainCfg, m: &mut Model, kf: &[KnownFinding], st: &mut St
                 return false;
             }
         };
-        let (bdims, bt) = conn_table(&bd);
+        let (bdims, bt) = match conn_table(&bd) {
+            Ok(x) => x,
+            Err(p) => {
+                if huge_cost && p.contains("overflow") && is_open(kf, "C16", "K4") {
+                    st.known("K4", "bigram.cost entries of magnitude above 2^24 (scale factor blown up by cancelling merged weights): summing them overflows i32");
+                    st.count("k4_explained");
+                    return true;
+                }
+                st.violation(Finding {
+                    class: format!("bigram-cost-Panic@{}", panic_site(&p)),
+                    what: format!("reading a connection cost of the compiled bigram dictionary panicked: {p} [{} {tag}]", cfg.name),
+                    replay: files(json!({})),
+                });
+                return false;
+            }
+        };
         if bdims != mdims {
             st.violation(Finding {
                 class: "bigram-and-matrix-dimensions-differ".into(),
@@ -801,7 +837,53 @@ pub fn check_c16(cfg: &TrainCfg, m: &mut Model, kf: &[KnownFinding], st: &mut St
                 }
             }
         }
-        if worst > k as i64 + 1 {
+        // K7: the dual connector clamps its pre-summed part (the K-8 templates kept in the matrix)
+        // to 16 bits; an emitted bigram.cost entry (or sum of entries) beyond 16 bits then deviates.
+        // Explained iff raw is within the bound and some choice of K-8 positions reproduces the
+        // dual value exactly with the clamp applied.
+        let k7 = dual && worst > k as i64 + 1 && k > 8 && {
+            let parse_side = |text: &str| -> Vec<Vec<String>> { text.lines().map(|l| csv_cells(l.split_once('\t').map_or("", |x| x.1))).collect() };
+            let model = crate::refmodel::Bigram {
+                right: parse_side(&bg.right),
+                left: parse_side(&bg.left),
+                cost: bg.cost.lines().filter_map(|l| {
+                    let (f, c) = l.split_once('\t')?;
+                    let (a, b) = f.split_once('/')?;
+                    Some((a.to_string(), b.to_string(), c.parse().ok()?))
+                }).collect(),
+            };
+            let (r, l) = worst_at;
+            let c = model.contribs(r, l);
+            let total: i64 = c.iter().sum();
+            let got = i64::from(bt[r * mdims.1 + l]);
+            let m = k - 8;
+            // enumerate subsets of size m of the k positions
+            fn subsets(n: usize, m: usize, start: usize, cur: &mut Vec<usize>, f: &mut dyn FnMut(&[usize]) -> bool) -> bool {
+                if cur.len() == m {
+                    return f(cur);
+                }
+                for i in start..n {
+                    cur.push(i);
+                    if subsets(n, m, i + 1, cur, f) {
+                        return true;
+                    }
+                    cur.pop();
+                }
+                false
+            }
+            let within_raw = (total - i64::from(mt[r * mdims.1 + l])).abs() <= k as i64 + 1;
+            within_raw && k <= 17 && subsets(c.len(), m, 0, &mut vec![], &mut |s| {
+                let pre: i64 = s.iter().map(|&p| c[p]).sum();
+                pre != pre.clamp(-32768, 32767) && total - pre + pre.clamp(-32768, 32767) == got
+            })
+        };
+        if k7 && is_open(kf, "C16", "K7") {
+            st.known("K7", "dual connector: the pre-summed part of an emitted bigram model exceeds 16 bits and is clamped, so the cost deviates from matrix.def by more than K+1");
+            st.count("k7_explained");
+        } else if worst > k as i64 + 1 && huge_cost && is_open(kf, "C16", "K4") {
+            st.known("K4", "bigram.cost entries of magnitude above 2^24 (scale factor blown up by cancelling merged weights): the K+1 bound is lost to i32 saturation");
+            st.count("k4_explained");
+        } else if worst > k as i64 + 1 {
             // K3: a feature string that is literally '*' is listed in bigram.cost and matched
             // against the "no feature" placeholder of bigram.left/right
             let star_listed = bg.cost.lines().any(|l| {
@@ -976,7 +1058,7 @@ pub fn run_family(which: Which, tier: Tier, st: &mut Stats, kf: &[KnownFinding])
         }
         // injected weights: every assignment of the first n weights from the alphabet, the rest
         // following a fixed non-zero pattern
-        let n = tier.pick(3, 5).min(nweights);
+        let n = (if which == Which::C16 { tier.pick(3, 4) } else { tier.pick(3, 5) }).min(nweights);
         if nweights == 0 {
             st.count("models_without_weights");
             return;
@@ -1120,7 +1202,7 @@ pub fn run_c15(tier: Tier) -> i32 {
     let mut fam = family(tier);
     // models without user lexicons in the configuration (the history adds them)
     fam.retain(|c| c.users.is_empty());
-    let stride = tier.pick(40, 4);
+    let stride = tier.pick(40, 12);
     let fam: Vec<TrainCfg> = fam.into_iter().enumerate().filter(|(i, _)| i % stride == 0).map(|x| x.1).collect();
     let depth = tier.pick(3, 4);
     let ops = [MOp::Generate, MOp::GenerateBigram, MOp::WriteRead, MOp::AddUser(0), MOp::AddUser(1), MOp::AddUser(2)];
